@@ -1,0 +1,22 @@
+//go:build verif
+
+package main
+
+// Verification hooks (build tag "verif"): an event sink and a gate that a test harness may
+// install. Both are nil unless a harness sets them, so the hooks do nothing by default.
+var (
+	verifSink func(ev string, args ...interface{})
+	verifHold func(point string)
+)
+
+func verifEvent(ev string, args ...interface{}) {
+	if verifSink != nil {
+		verifSink(ev, args...)
+	}
+}
+
+func verifGate(point string) {
+	if verifHold != nil {
+		verifHold(point)
+	}
+}
